@@ -1,8 +1,13 @@
 package checks
 
 import (
+	"bytes"
+	"encoding/json"
 	"fmt"
 	"io"
+	"os"
+	"os/exec"
+	"strings"
 
 	"github.com/ulikunitz/xz"
 	"github.com/ulikunitz/xz/lzma"
@@ -29,6 +34,96 @@ type RCase struct {
 	// Only restricts enumeration engines to a single position.
 	Only    int  `json:"only,omitempty"`
 	HasOnly bool `json:"has_only,omitempty"`
+	// Fresh: the case runs in a process of its own, because what it may
+	// provoke - the runtime's "fatal error: stack overflow", memory exhaustion -
+	// cannot be recovered from inside the process that meets it.
+	Fresh bool `json:"fresh,omitempty"`
+}
+
+// freshOutcome is what the child process of a Fresh case reports.
+type freshOutcome struct {
+	Violation *sim.Violation   `json:"violation,omitempty"`
+	Infra     string           `json:"infra,omitempty"`
+	Counters  map[string]int64 `json:"counters,omitempty"`
+}
+
+// freshRunners maps a subcommand to the in-process runner of its check.
+var freshRunners = map[string]func(c *RCase, x *sim.Ctx) *sim.Violation{}
+
+// registerFresh makes "verif <verb>" run one RCase read from standard input.
+func registerFresh(verb string, run func(c *RCase, x *sim.Ctx) *sim.Violation) {
+	freshRunners[verb] = run
+	sim.Subcommands[verb] = func(args []string) int {
+		var c RCase
+		var o freshOutcome
+		if err := json.NewDecoder(os.Stdin).Decode(&c); err != nil {
+			fmt.Fprintln(os.Stderr, err)
+			return 2
+		}
+		c.Fresh = false
+		x := sim.NewCtx(false)
+		func() {
+			defer func() {
+				if r := recover(); r != nil {
+					o.Infra = fmt.Sprint(r)
+				}
+			}()
+			o.Violation = run(&c, x)
+		}()
+		o.Counters = x.Counters
+		b, _ := json.Marshal(o)
+		os.Stdout.Write(b)
+		return 0
+	}
+}
+
+// runFresh executes the case in a child process. A child that the Go runtime
+// kills ("fatal error: ...", e.g. stack overflow - not a panic, not
+// recoverable) is a violation of the no-panic clause every reader property
+// implies; any other abnormal end is infrastructure trouble.
+func runFresh(verb string, c *RCase, x *sim.Ctx) *sim.Violation {
+	self, err := os.Executable()
+	if err != nil {
+		sim.Infra("cannot locate own binary: %v", err)
+	}
+	b, _ := json.Marshal(c)
+	cmd := exec.Command(self, verb)
+	cmd.Stdin = bytes.NewReader(b)
+	cmd.Env = append(os.Environ(), "VERIF_SHARD=", "VERIF_SHARD_OUT=")
+	var stderr bytes.Buffer
+	cmd.Stderr = &stderr
+	out, err := cmd.Output()
+	var o freshOutcome
+	if jerr := json.Unmarshal(out, &o); jerr != nil {
+		msg := stderr.String()
+		if i := strings.Index(msg, "fatal error: "); i >= 0 {
+			line := msg[i:]
+			if j := strings.IndexByte(line, '\n'); j >= 0 {
+				line = line[:j]
+			}
+			x.Eval(1)
+			x.Nontrivial(1)
+			return sim.Viol("fatal", strings.TrimPrefix(line, "fatal error: "), "the Go runtime killed the process that ran the case: %s", line)
+		}
+		sim.Infra("case in a fresh process failed: %v (stderr %q)", err, tail(msg, 400))
+	}
+	if o.Infra != "" {
+		sim.Infra("%s", o.Infra)
+	}
+	for k, v := range o.Counters {
+		x.Count(k, v)
+	}
+	x.Probe("case-in-a-fresh-process")
+	x.Eval(1)
+	x.Nontrivial(1)
+	return o.Violation
+}
+
+func tail(s string, n int) string {
+	if len(s) > n {
+		return s[len(s)-n:]
+	}
+	return s
 }
 
 // ReadRes is one observed Read call.
